@@ -19,4 +19,4 @@ Extraction "model.ml"
   init_state decode decode_stream has_stale Build_dconfig as_int64 as_bytes as_string
   encode run_w output Build_econfig norm unerase reify erase fits_proto
   asm iproto sd_step sd_run program pyload pyval_of decode_all1 Build_bst pd_merge qload qheap_get asm_all dis
-  hmap inv_load inv_g qload_all q_init AloneFacts.memo_freeb AloneFacts.self_containedb norm2.
+  hmap inv_load inv_g qload_all q_init AloneFacts.memo_freeb AloneFacts.self_containedb norm2 reflect.
